@@ -756,6 +756,10 @@ class Parser:
 
     def _dynamic_disambiguation(self, context, actions):
         dyn_actions = []
+        # The context is the stack head, i.e. the context of the tree node
+        # created by the previous reduction. Its production must survive the
+        # filter calls as it is used when actions are called on the tree.
+        head_production = context.production
         for a in actions:
             if a.action is SHIFT:
                 if self._call_dynamic_filter(context, context.state, a.state, SHIFT):
@@ -770,6 +774,7 @@ class Parser:
                     dyn_actions.append(a)
             else:
                 dyn_actions.append(a)
+        context.production = head_production
         return dyn_actions
 
     def _call_dynamic_filter(
